@@ -2,6 +2,7 @@ package main
 
 import (
 	"fmt"
+	"github.com/pip-services3-gox/pip-services3-commons-gox/convert"
 	"math"
 	"strconv"
 	"strings"
@@ -329,6 +330,10 @@ func hostResult(op int, a, b *variants.Variant) (*variants.Variant, bool) {
 // hostNumConv converts a numeric value to another numeric type with the host's own conversions (truncation toward
 // zero for float -> integer, one rounding for integer -> float); independent of the library's Convert.
 func hostNumConv(b *variants.Variant, t variants.VariantType) (*variants.Variant, bool) {
+	if t == variants.Boolean && b.Type() == variants.String {
+		// a string as a boolean: what the library's converter (commons-gox) makes of it - "yes", "Y", "tRuE", "1" are true
+		return variants.VariantFromBoolean(convert.BooleanConverter.ToBoolean(b.AsString())), true
+	}
 	var f float64
 	var i int64
 	isf := false
